@@ -84,6 +84,7 @@ type oracleRun struct {
 	drift            bool
 	scatter          bool
 	scatterN         uint64
+	leaver           int // index of the operator that opted out (0: none, -1: undecided)
 	countedAt        map[string]int64
 	repeatKeys       map[string]bool
 	seenDets         map[string][]uint64
@@ -340,6 +341,7 @@ func (o *oracleRun) nextNonce(raw sim.Raw, k *sim.ConsKey, feeder uint64) int32 
 
 func (o *oracleRun) run(nBlocks int) {
 	w := o.w
+	o.leaver = -1
 	o.silent = []int{35, 35, 60, 80}[o.r.Intn(4)]
 	o.drift = o.r.Intn(3) == 0
 	o.scatter = !o.drift && o.r.Intn(4) == 0
@@ -489,6 +491,16 @@ func (o *oracleRun) run(nBlocks int) {
 			amt := sdkmath.NewInt(int64(1_000_000 * (1 + o.r.Intn(60))))
 			if st := w.Deposit(s, w.Assets[0], amt); st.Ack {
 				w.Delegate(s, w.Assets[0], op, amt)
+			}
+		}
+		// a third of the histories: one validator (never the first) opts out; at the next epoch end it leaves the
+		// validator set, but its key keeps reporting (a former validator)
+		if o.leaver < 0 && len(w.Opers) > 2 && b > 6 && o.r.Intn(12) == 0 {
+			o.leaver = 1 + o.r.Intn(len(w.Opers)-1)
+			if o.r.Intn(3) != 0 {
+				o.leaver = 0 // this history keeps its validators
+			} else if st := w.OptOut(w.Opers[o.leaver], w.AVSAddr); !st.Ack {
+				o.leaver = 0
 			}
 		}
 		// end of block
